@@ -11,7 +11,7 @@ EXPLANATION = (
     "cycle of the pausing code's dispatch loop contains the command read; the command reader's retry loop reads a line "
     "per iteration; end of input maps to quit, which detaches the debugger. R4 is the panic ledger of these functions "
     "(see the PANIC engine; reported under this property when it concerns the stepping arms)."
-    ' R2 also: no None (no action yet) return of the dispatcher in front of the command read. R5: a loop that pulls from an iterator must observe its exhaustion (a next() result only compared with Some(x) is reported), and the None edge of a pull - next(), or a call of a source closure - must not lead back to the loop head through blocks that call nothing and assign no named variable. R4 also covers the output layer the command arms print through (lace::output): write_str of the writers is infallible by construction (tactic), the remaining sites are reviewed or re-verified ledger entries.'
+    ' R2 also: no None (no action yet) return of the dispatcher in front of the command read. R5: a loop that pulls from an iterator must observe its exhaustion (a next() result only compared with Some(x) is reported), and the None edge of a pull - next(), or a call of a source closure - must not lead back to the loop head through blocks that call nothing and assign no named variable. R4 also covers the output layer the command arms print through (lace::output): write_str of the writers is infallible by construction (tactic), the remaining sites are reviewed or re-verified ledger entries. R5 also: a counting loop that is left only on equality of its counter with a bound must start at the constant 0 or sit behind a dominating <= / < test of the counter.'
 )
 
 NOT_DECIDED = "termination of the debugged program itself; the constant in 'bounded by a constant times ...'"
@@ -321,7 +321,56 @@ def run(ctx):
                 ctx.violation("pull-none-spins|%s" % short(n), sp_file_line(t.get("sp")),
                               "in `%s` the empty answer of `%s` leads straight back to the head of the loop with nothing changed: once the input has run dry the "
                               "same pull is repeated forever (the debugger hangs instead of reaching end of input)" % (short(n), short(c)))
-    ctx.note("%d iterator pulls inside loops examined in %d functions; %d pulls with an Option answer checked for a spinning None edge" % (nloops5, len(scope5), npull))
+    # ... and a counting loop that is only left on `counter == bound` must not be able to start behind its bound: `while len != width - 1
+    # { ..; len += 1 }` runs through the whole range of usize (in practice: forever, printing) when len starts above the bound. Such a loop
+    # is accepted when the counter starts at the constant 0, or when a test `counter <= bound` / `counter < bound` dominates its head
+    from ..panics import Ledger as _Ledger
+    L5 = _Ledger(ctx, [rl.name])
+    nne = 0
+    for n in sorted(scope5 | {x for x in prog.fns if prog.fns[x].bkind == "fn" and x.startswith("lace::output::")} |
+                    {x for x in prog.fns if x.startswith("lace::output::") and "{closure" in x}):
+        f = prog.fns[n]
+        lps6 = kit.loops(f)
+        succ6 = f.succ_map()
+        for h, (body, latches) in sorted(lps6.items()):
+            exits = [(x, y) for x in body for y in succ6[x] if y not in body]
+            conds = []
+            for x, y in exits:
+                tt = f.term(x)
+                if tt["k"] == "assert":
+                    continue
+                if tt["k"] != "switch":
+                    conds = None
+                    break
+                conds.append((x, f.expr(tt["a"], 6, stop={"named"})))
+            if not conds or not all(c[0] == "bin" and c[1] in ("Ne", "Eq") for x, c in conds):
+                continue
+            for x, c in conds:
+                cnt = [sd for sd in (kit.strip_refs(c[2]), kit.strip_refs(c[3])) if sd[0] == "local"]
+                stepped = None
+                for k in cnt:
+                    ds = f.defs().get(k[1], [])
+                    ins_ = [d for d in ds if d[0] == "stmt" and d[1] in body]
+                    outs_ = [d for d in ds if d[1] not in body]
+                    if ins_ and all(f.rvalue_expr(d[3]["r"], 5, stop={"named"})[:2] in (("bin", "Add"), ("checked", "Add"), ("bin", "Sub"), ("checked", "Sub")) for d in ins_):
+                        stepped = (k, ins_, outs_)
+                if stepped is None:
+                    continue
+                k, ins_, outs_ = stepped
+                nne += 1
+                ctx.instance(1)
+                other = kit.strip_refs(c[3]) if kit.strip_refs(c[2])[:2] == k[:2] else kit.strip_refs(c[2])
+                from0 = len(outs_) == 1 and outs_[0][0] == "stmt" and f.rvalue_expr(outs_[0][3]["r"], 4, stop={"named"}) == ("const", 0) \
+                    and all(f.rvalue_expr(d[3]["r"], 5, stop={"named"})[1] == "Add" for d in ins_)
+                guarded = any(cc[0] == "bin" and v != 0 and ((cc[1] in ("Le", "Lt") and kit.strip_refs(cc[2])[:2] == k[:2]) or (cc[1] in ("Ge", "Gt") and kit.strip_refs(cc[3])[:2] == k[:2]))
+                              for cc, v in L5._dom_constraints(f, h, stable=False))
+                ok6 = from0 or guarded
+                ctx.oblig(ok6, {"counting loop in": short(n), "left on": expr_str(c, 60)}, "counter starts at 0, or a `<=` test dominates the loop")
+                if not ok6:
+                    ctx.violation("loop-exit-on-equality|%s" % short(n), sp_file_line(f.term(x).get("sp")),
+                                  "the loop in `%s` is left only when `%s` compares equal with `%s`; nothing shows that the counter starts at or below that bound, and "
+                                  "once it is past it the loop runs on (a cell exactly as wide as its column pads forever)" % (short(n), expr_str(k, 30), expr_str(other, 40)))
+    ctx.note("%d iterator pulls inside loops examined in %d functions; %d pulls with an Option answer checked for a spinning None edge; %d counting loop(s) left on equality" % (nloops5, len(scope5), npull, nne))
     ctx.finish_rule()
 
     # the decrement of the `step into` counter: C10.R4 evaluates the stepper's transition for every counter value and shows that no
